@@ -53,6 +53,10 @@ fn main() {
                     println!("VIOLATION property={id} replay={}", args[3]);
                     std::process::exit(1);
                 }
+                Ok(Verdict::Broken(m)) => {
+                    eprintln!("replay: oracle self-check failed: {m}");
+                    std::process::exit(2);
+                }
                 Err(e) => {
                     eprintln!("replay error: {e}");
                     std::process::exit(2);
